@@ -95,6 +95,18 @@ def find(req):
         pref = ["confinement"]
     probes.sort(key=lambda p: pref.index(p[0]) if p[0] in pref else len(pref))
     notes = []
+    import shutil
+    scratch = tempfile.mkdtemp(prefix="c09replay_cwd_")       # broken code under test may write relative to the cwd: keep that out of /verif
+    home = os.getcwd()
+    os.chdir(scratch)
+    try:
+        return _run(probes, notes)
+    finally:
+        os.chdir(home)
+        shutil.rmtree(scratch, ignore_errors=True)
+
+
+def _run(probes, notes):
     for name, fn in probes:
         try:
             r = fn()
